@@ -43,7 +43,7 @@ def _matches(got, exp):
     return True
 
 
-def check_vector(P, vec, variants=False):
+def check_vector(P, vec, variants=False, channels=False):
     L = lib()
     P.evaluations += 1
     ok, o = obs.call(L.CVSS2, vec)
@@ -88,6 +88,8 @@ def check_vector(P, vec, variants=False):
         if not same:
             P.violation("attr-vs-scores", "C03:attribute-differs:" + slot, {"vector": vec}, observed=repr(a),
                         scores=repr(got))
+    if channels or P.evaluations % 5 == 0 or (e1[1] is None) != (e1[2] is None):
+        obs.check_score_channels(P, "C03", o, vec, got)
     if e1[1] is None:
         P.stratum("temporal-undefined")
     if e1[2] is None:
@@ -117,7 +119,7 @@ def check_case(P, case):
     if "spellings" in case:
         check_fd(P, case["spellings"])
     else:
-        check_vector(P, case["vector"], variants=True)
+        check_vector(P, case["vector"], variants=True, channels=True)
 
 
 def _hook():
